@@ -52,7 +52,7 @@ def rand_value(rng, varnames, path=False, rich=True, may_be_empty=False):
     return out
 
 
-def gen_abstract(rng, nstmt=None, dup_outputs=False, includes=False, scoping=False):
+def gen_abstract(rng, nstmt=None, dup_outputs=False, includes=False, scoping=False, depth=0, file_prefix="inc"):
     varnames = ["v%d" % i for i in range(4)] + ["cflags", "builddir"]
     stmts = []
     rules = []
@@ -106,8 +106,11 @@ def gen_abstract(rng, nstmt=None, dup_outputs=False, includes=False, scoping=Fal
             if b:
                 stmts.append(("default", [rng.choice(b)[1][0]]))
         elif includes:
-            fname = "inc%d.ninja" % len(files)
-            sub, _ = gen_abstract(rng, nstmt=rng.randint(1, 5))
+            fname = "%s%d.ninja" % (file_prefix, len(files))
+            # (one time in three the included file includes a further file: scopes chain over more than one level)
+            sub, subfiles = gen_abstract(rng, nstmt=rng.randint(1, 5), includes=(depth < 2 and rng.random() < 0.35), depth=depth + 1,
+                                         file_prefix="%s%d_" % (file_prefix, len(files)))
+            files.update(subfiles)
             # the included file binds variables and (two times out of three) also declares rules, pools and steps that read the
             # scope in force at the include line; the statements after the line may rebind what the child read
             if rng.random() < 0.33:
@@ -171,7 +174,7 @@ def spell(rng, stmts, plain=False):
     lines = []
     for s in stmts:
         if not plain and rng.random() < 0.15:
-            lines.append(rng.choice(["", "# a comment", "#"]))
+            lines.append(rng.choice(["", "# a comment", "#", "# costs 5 US$", "# $", "#$$ build x: y"]))
         if s[0] == "bind":
             eq = "=" if plain else rng.choice(["=", " =", "= ", " = ", "  =  "])
             lines.append("%s%s%s" % (s[1], eq, spell_value(rng, s[2], False, plain)))
